@@ -1,12 +1,18 @@
 (* ChainParse.v — from the path text: a path made of any number of steps — names in any of the three spellings
    ( ["k"]  ['k']  .k ), indexes [digits], wildcards .* [*], each possibly after `..` — is accepted by the grammar and
    builds the chain of nodes the steps stand for. *)
-From JP Require Import Peg Grammar Slice Text Tree Actions PegFacts PegMono PegEv Codec FuelRules ParseFacts KeyDefs KeyParse IdxParse SliceParse WildParse RecParse.
+From JP Require Import Peg Grammar Slice Text Tree Actions PegFacts PegMono PegEv Codec FuelRules ParseFacts KeyDefs KeyParse IdxParse SliceParse UnionParse WildParse RecParse.
 From Coq Require Import Lia.
 Local Open Scope N_scope.
 Open Scope list_scope.
 
 Definition atoi_ok (t : list N) : bool := match t with [] => true | _ :: _ => match atoi t with Some _ => true | None => false end end.
+Definition usub_atoi (u : usub) : bool :=
+  match u with
+  | UIdx t => atoi_ok t
+  | USlice a b c0 => atoi_ok a && atoi_ok b && match c0 with Some t => atoi_ok t | None => true end
+  | UWild => true
+  end.
 Definition step_ok (s : kstep) : bool :=
   match s with
   | SBr q _ => (q =? 34) || (q =? 39)
@@ -14,6 +20,7 @@ Definition step_ok (s : kstep) : bool :=
   | SIdx ds => match ds with [] => false | _ :: _ => forallb is_digit ds && (match atoi ds with Some _ => true | None => false end) end
   | SWild _ => true
   | SSlice a b c0 => slice_ok a b c0 && atoi_ok a && atoi_ok b && match c0 with Some t => atoi_ok t | None => true end
+  | SUnion u us => union_ok u us && forallb usub_atoi (u :: us)
   end.
 Definition step_tokens (p : nat) (s : kstep) : list token :=
   match s with
@@ -23,6 +30,7 @@ Definition step_tokens (p : nat) (s : kstep) : list token :=
   | SWild true => [TAct 12; TText p (p + 2); TAct 4]
   | SWild false => [TAct 12; TText p (p + 3); TAct 7]
   | SSlice a b c0 => slice_step_tokens p a b c0
+  | SUnion u us => union_step_tokens p u us
   end.
 
 Lemma render_len_br q k : List.length (render_step (SBr q k)) = (List.length (esc_cps q k) + 4)%nat.
@@ -36,6 +44,10 @@ Proof. cbn [render_step List.length]. rewrite app_length. cbn [List.length]. lia
 
 Lemma render_len_slice a b c0 : List.length (render_step (SSlice a b c0)) = (List.length (slice_body a b c0) + 2)%nat.
 Proof. cbn [render_step List.length]. rewrite app_length. cbn [List.length]. lia. Qed.
+Lemma render_len_union u us : List.length (render_step (SUnion u us)) = (List.length (render_union u us) + 2)%nat.
+Proof. cbn [render_step List.length]. rewrite app_length. cbn [List.length]. lia. Qed.
+Lemma union_ok_of u us : step_ok (SUnion u us) = true -> union_ok u us = true.
+Proof. cbn [step_ok]. intros H. apply andb_true_iff in H. tauto. Qed.
 Lemma slice_ok_of a b c0 : step_ok (SSlice a b c0) = true -> slice_ok a b c0 = true.
 Proof. cbn [step_ok]. intros H. apply andb_true_iff in H. destruct H as [H _]. apply andb_true_iff in H. destruct H as [H _]. apply andb_true_iff in H. tauto. Qed.
 
@@ -46,7 +58,7 @@ Proof. intros H. apply orb_true_iff in H. destruct H as [H|H]; apply N.eqb_eq in
 Lemma ev_rule7_step s rest pos : step_ok s = true -> dot_stop rest ->
   evG (PRef 7) (render_step s ++ rest) pos (POk rest (pos + List.length (render_step s)) (step_tokens pos s)).
 Proof.
-  intros Hs Hr. destruct s as [q k|k|ds|[|]|a b c0].
+  intros Hs Hr. destruct s as [q k|k|ds|[|]|a b c0|u us].
   - cbn [step_ok] in Hs. apply q_ok in Hs. rewrite render_len_br. cbn [render_step step_tokens app].
     rewrite <- app_assoc. cbn [app]. eapply ev_conv; [apply ev_rule7; exact Hs|]. f_equal. lia.
   - destruct k as [|c k]; [discriminate Hs|]. cbn [step_ok] in Hs. rewrite render_len_dot. cbn [render_step step_tokens app].
@@ -58,9 +70,11 @@ Proof.
   - cbn [render_step step_tokens app List.length]. apply ev_rule7_brwild.
   - rewrite render_len_slice. cbn [render_step step_tokens]. cbn [app]. rewrite <- app_assoc. cbn [app].
     eapply ev_conv; [apply ev_rule7_slice; apply slice_ok_of; exact Hs|]. f_equal. lia.
+  - rewrite render_len_union. cbn [render_step step_tokens]. cbn [app]. rewrite <- app_assoc. cbn [app].
+    eapply ev_conv; [apply ev_rule7_union; apply union_ok_of; exact Hs|]. f_equal. lia.
 Qed.
 Lemma render_step_len_pos s : (1 <= List.length (render_step s))%nat.
-Proof. destruct s as [q k|k|ds|[|]|a b c0]; cbn [render_step List.length]; lia. Qed.
+Proof. destruct s as [q k|k|ds|[|]|a b c0|u us]; cbn [render_step List.length]; lia. Qed.
 
 (* ---------- steps after `..` ---------- *)
 Definition rstep_ok (x : rstep) : bool := match x with RPlain s | RRec s => step_ok s end.
@@ -80,16 +94,16 @@ Fixpoint steps_tokens (p : nat) (steps : list rstep) : list token :=
   end.
 
 Lemma steps_stop steps : dot_stop (render_steps steps).
-Proof. destruct steps as [|[[q k|k|ds|[|]|a b c0]|s] r]; cbn; auto. Qed.
+Proof. destruct steps as [|[[q k|k|ds|[|]|a b c0|u us]|s] r]; cbn; auto. Qed.
 
 Lemma rec_body_bracket s : (match s with SDot _ | SWild true => False | _ => True end) -> rec_body s = render_step s.
-Proof. destruct s as [q k|k|ds|[|]|a b c0]; intros H; try contradiction; reflexivity. Qed.
+Proof. destruct s as [q k|k|ds|[|]|a b c0|u us]; intros H; try contradiction; reflexivity. Qed.
 
 (* the bracket forms go through bracketNode whatever follows *)
 Lemma ev_rule10_step s rest pos : step_ok s = true -> (match s with SDot _ | SWild true => False | _ => True end) ->
   evG (PRef 10) (render_step s ++ rest) pos (POk rest (pos + List.length (render_step s)) (step_tokens pos s)).
 Proof.
-  intros Hs Hb. destruct s as [q k|k|ds|[|]|a b c0]; try contradiction.
+  intros Hs Hb. destruct s as [q k|k|ds|[|]|a b c0|u us]; try contradiction.
   - cbn [step_ok] in Hs. apply q_ok in Hs. rewrite render_len_br. cbn [render_step step_tokens app].
     rewrite <- app_assoc. cbn [app]. eapply ev_conv; [apply ev_rule10; exact Hs|]. f_equal. lia.
   - destruct ds as [|d ds]; [discriminate Hs|]. cbn [step_ok] in Hs. apply andb_true_iff in Hs. destruct Hs as [Hd _].
@@ -98,13 +112,15 @@ Proof.
   - cbn [render_step step_tokens app List.length]. apply ev_rule10_wild.
   - rewrite render_len_slice. cbn [render_step step_tokens]. cbn [app]. rewrite <- app_assoc. cbn [app].
     eapply ev_conv; [apply ev_rule10_slice; apply slice_ok_of; exact Hs|]. f_equal. lia.
+  - rewrite render_len_union. cbn [render_step step_tokens]. cbn [app]. rewrite <- app_assoc. cbn [app].
+    eapply ev_conv; [apply ev_rule10_union; apply union_ok_of; exact Hs|]. f_equal. lia.
 Qed.
 
 Lemma ev_rule7_rstep x rest pos : rstep_ok x = true -> dot_stop rest ->
   evG (PRef 7) (render_rstep x ++ rest) pos (POk rest (pos + List.length (render_rstep x)) (rstep_tokens pos x)).
 Proof.
   intros Hs Hr. destruct x as [s|s]; [apply ev_rule7_step; assumption|]. cbn [rstep_ok] in Hs.
-  destruct s as [q k|k|ds|[|]|a b c0].
+  destruct s as [q k|k|ds|[|]|a b c0|u us].
   - cbn [render_rstep rstep_tokens rec_body]. cbn [app List.length].
     pose proof (ev_rule10_step (SBr q k) rest (pos + 2)%nat Hs I) as H10.
     pose proof (ev_rule7_rec_br (render_step (SBr q k)) rest pos _ (List.length (render_step (SBr q k))) H10) as H7.
@@ -124,6 +140,10 @@ Proof.
   - cbn [render_rstep rstep_tokens rec_body]. cbn [app List.length].
     pose proof (ev_rule10_step (SSlice a b c0) rest (pos + 2)%nat Hs I) as H10.
     pose proof (ev_rule7_rec_br (render_step (SSlice a b c0)) rest pos _ (List.length (render_step (SSlice a b c0))) H10) as H7.
+    eapply ev_conv; [exact H7|]. f_equal. lia.
+  - cbn [render_rstep rstep_tokens rec_body]. cbn [app List.length].
+    pose proof (ev_rule10_step (SUnion u us) rest (pos + 2)%nat Hs I) as H10.
+    pose proof (ev_rule7_rec_br (render_step (SUnion u us)) rest pos _ (List.length (render_step (SUnion u us))) H10) as H7.
     eapply ev_conv; [exact H7|]. f_equal. lia.
 Qed.
 Lemma render_rstep_len_pos x : (1 <= List.length (render_rstep x))%nat.
@@ -197,15 +217,23 @@ Section ChainExec.
     match t with [] => {| number := 0; omitted := true |} | _ :: _ => {| number := step_idx t; omitted := false |} end.
   Definition slice_sub (a b : list N) (c0 : option (list N)) : subscript :=
     mk_slice (bound_idx a) (bound_idx b) (match c0 with Some t => bound_idx t | None => {| number := 1; omitted := false |} end).
+  Definition sub_of (u : usub) : subscript :=
+    match u with UIdx t => SubIndex (step_idx t) | USlice a b c0 => slice_sub a b c0 | UWild => SubWild end.
   Definition step_kind (s : kstep) : kind :=
     match s with
     | SIdx ds => KUnion [SubIndex (step_idx ds)]
     | SWild _ => KWild
     | SSlice a b c0 => KUnion [slice_sub a b c0]
+    | SUnion u us => KUnion (map sub_of (u :: us))
     | _ => KSingle (step_key s)
     end.
   (* does the step select a group of values? *)
-  Definition step_vg (s : kstep) : bool := match s with SWild _ | SSlice _ _ _ => true | _ => false end.
+  Definition step_vg (s : kstep) : bool :=
+    match s with
+    | SWild _ | SSlice _ _ _ => true
+    | SUnion u us => match us with [] => sub_value_group (sub_of u) | _ :: _ => true end
+    | _ => false
+    end.
   Definition step_text (s : kstep) : string := text_of (render_step s).
   Definition pre_basic_vg (vg : bool) (s : kstep) : basic := {| text := step_text s; ctext := ""; vgroup := vg; accessor := cfg_accessor cfg |}.
   Definition pre_basic (s : kstep) : basic := pre_basic_vg (step_vg s) s.
@@ -225,10 +253,143 @@ Section ChainExec.
     destruct k; try reflexivity. contradiction (Hk ids allWild uq). reflexivity.
   Qed.
 
+  Lemma exec21 t bg ps0 : atoi_ok t = true -> exec_action 21 t bg (mk ps0) = AOk (mk (ps0 ++ [IIdx (bound_idx t)])).
+  Proof.
+    intros Ht. destruct t as [|c1 r1]; [reflexivity|].
+    cbn [atoi_ok] in Ht. change (exec_action 21 (c1 :: r1) bg (mk ps0)) with (push_index (c1 :: r1) false (mk ps0)).
+    unfold push_index, bound_idx, step_idx. destruct (atoi (c1 :: r1)); [reflexivity|discriminate Ht].
+  Qed.
+
+  (* the tokens of a slice, then action 16: one slice subscript on the stack *)
+  Lemma exec_slice_sub input q sa sb sc rest ps toks cps bg :
+    atoi_ok sa = true -> atoi_ok sb = true -> (match sc with Some t => atoi_ok t | None => true end) = true ->
+    skipn q input = slice_body sa sb sc ++ rest ->
+    exists cps' bg', execute (slice_tokens q sa sb sc ++ TAct 16 :: toks) input cps bg (mk ps) =
+                     execute toks input cps' bg' (mk (ps ++ [ISub (slice_sub sa sb sc)])).
+  Proof.
+    intros Ha Hb Hc Hin. unfold slice_tokens. rewrite <- !app_assoc. cbn [app Actions.execute].
+    unfold slice_body in Hin. repeat (progress (cbn [app] in Hin) || rewrite <- app_assoc in Hin).
+    assert (Ea : sub_list input q (q + List.length sa) = sa).
+    { pose proof (sub_at input q 0 [] sa (58 :: sb ++ match sc with Some t => 58 :: t | None => [] end ++ rest)) as H.
+      rewrite Nat.add_0_r in H. apply H; [|reflexivity]. rewrite Hin. reflexivity. }
+    assert (Eb : sub_list input (q + List.length sa + 1) (q + List.length sa + 1 + List.length sb) = sb).
+    { pose proof (sub_at input q (List.length sa + 1) (sa ++ [58]) sb (match sc with Some t => 58 :: t | None => [] end ++ rest)) as H.
+      replace (q + List.length sa + 1)%nat with (q + (List.length sa + 1))%nat by lia. apply H.
+      - rewrite Hin. repeat (progress (cbn [app]) || rewrite <- app_assoc). reflexivity.
+      - rewrite app_length. cbn [List.length]. lia. }
+    rewrite Ea, Eb. rewrite (exec21 sa _ ps Ha). cbn [abind]. rewrite (exec21 sb _ _ Hb). cbn [abind].
+    set (stepi := match sc with Some t => bound_idx t | None => {| number := 1; omitted := false |} end).
+    assert (E3 : exists cps1 bg1,
+               execute (match sc with
+                        | Some t => [TText (q + List.length sa + 1 + List.length sb + 1) (q + List.length sa + 1 + List.length sb + 1 + List.length t); TAct 21]
+                        | None => [TAct 20] end ++ TAct 16 :: toks) input sb (q + List.length sa + 1)
+                       (mk ((ps ++ [IIdx (bound_idx sa)]) ++ [IIdx (bound_idx sb)])) =
+               execute (TAct 16 :: toks) input cps1 bg1 (mk (((ps ++ [IIdx (bound_idx sa)]) ++ [IIdx (bound_idx sb)]) ++ [IIdx stepi]))).
+    { destruct sc as [t|]; cbn [app Actions.execute].
+      - assert (Ec : sub_list input (q + List.length sa + 1 + List.length sb + 1) (q + List.length sa + 1 + List.length sb + 1 + List.length t) = t).
+        { pose proof (sub_at input q (List.length sa + List.length sb + 2) (sa ++ 58 :: sb ++ [58]) t rest) as H.
+          replace (q + List.length sa + 1 + List.length sb + 1)%nat with (q + (List.length sa + List.length sb + 2))%nat by lia. apply H.
+          - rewrite Hin. repeat (progress (cbn [app]) || rewrite <- app_assoc). reflexivity.
+          - rewrite app_length. cbn [List.length]. rewrite app_length. cbn [List.length]. lia. }
+        rewrite Ec. rewrite (exec21 t _ _ Hc). cbn [abind]. eexists _, _. reflexivity.
+      - eexists _, _. reflexivity. }
+    destruct E3 as (cps1 & bg1 & E3). rewrite E3. clear E3. cbn [Actions.execute].
+    change (exec_action 16 cps1 bg1 ?st) with
+      (abind (pop_idx st) (fun '(sp0, st1) => abind (pop_idx st1) (fun '(en0, st2) => abind (pop_idx st2) (fun '(st0, st3) => AOk (push (ISub (mk_slice st0 en0 sp0)) st3))))).
+    unfold pop_idx. rewrite !pop_mk. cbn [abind]. rewrite !pop_mk. cbn [abind]. rewrite !pop_mk. cbn [abind].
+    unfold push, with_params, mk. cbn [params saved proot]. eexists _, _. reflexivity.
+  Qed.
+
+  (* ---------- union subscripts ---------- *)
+  Definition sub_node (u : usub) : node := Node (KUnion [sub_of u]) (mk_basic "" (sub_value_group (sub_of u)) (cfg_accessor cfg)) ONone.
+
+  Lemma slice_sub_vg a b c0 : sub_value_group (slice_sub a b c0) = true.
+  Proof. unfold slice_sub, mk_slice. destruct (number (if omitted _ then _ else _) >=? 0)%Z; reflexivity. Qed.
+
+  Lemma exec19_sub cps bg ps s toks input :
+    execute (TAct 19 :: toks) input cps bg (mk (ps ++ [ISub s])) =
+    execute toks input cps bg (mk (ps ++ [INode (Node (KUnion [s]) (mk_basic "" (sub_value_group s) (cfg_accessor cfg)) ONone)])).
+  Proof.
+    cbn [Actions.execute].
+    change (exec_action 19 cps bg ?st) with
+      (abind (pop st) (fun '(x, st1) => match x with
+         | IIdx i => AOk (push (INode (Node (KUnion [SubIndex (number i)]) (mk_basic "" false (acc cfg)) ONone)) st1)
+         | ISub sb => AOk (push (INode (Node (KUnion [sb]) (mk_basic "" (sub_value_group sb) (acc cfg)) ONone)) st1)
+         | _ => ACrash "type assertion .(syntaxSubscript)" end)).
+    rewrite pop_mk. cbn [abind]. reflexivity.
+  Qed.
+
+  Lemma exec_sub input q u x tail ps toks cps bg : usub_ok u = true -> usub_atoi u = true ->
+    skipn q input = render_sub u ++ x :: tail ->
+    exists cps' bg', execute (sub_tokens q u ++ toks) input cps bg (mk ps) = execute toks input cps' bg' (mk (ps ++ [INode (sub_node u)])).
+  Proof.
+    intros Hu Ha Hin. destruct u as [t|sa sb sc|]; cbn [usub_ok usub_atoi render_sub sub_tokens] in *.
+    - cbn [app Actions.execute].
+      assert (E1 : sub_list input q (q + List.length t) = t).
+      { pose proof (sub_at input q 0 [] t (x :: tail)) as H. rewrite Nat.add_0_r in H. apply H; [exact Hin|reflexivity]. }
+      rewrite E1. destruct t as [|c1 r1]; [discriminate Hu|]. cbn [atoi_ok] in Ha.
+      change (exec_action 17 (c1 :: r1) q (mk ps)) with (push_index (c1 :: r1) false (mk ps)).
+      unfold push_index. destruct (atoi (c1 :: r1)) as [z|] eqn:Ez; [|discriminate Ha]. cbn [abind].
+      unfold push, with_params, mk. cbn [params saved proot]. fold (mk (ps ++ [IIdx {| number := z; omitted := false |}])).
+      change (exec_action 19 (c1 :: r1) q ?st) with
+        (abind (pop st) (fun '(x0, st1) => match x0 with
+           | IIdx i => AOk (push (INode (Node (KUnion [SubIndex (number i)]) (mk_basic "" false (acc cfg)) ONone)) st1)
+           | ISub sb0 => AOk (push (INode (Node (KUnion [sb0]) (mk_basic "" (sub_value_group sb0) (acc cfg)) ONone)) st1)
+           | _ => ACrash "type assertion .(syntaxSubscript)" end)).
+      rewrite pop_mk. cbn [abind number]. eexists _, _. unfold sub_node, sub_of, step_idx. rewrite Ez. reflexivity.
+    - apply andb_true_iff in Ha. destruct Ha as [Ha Hc]. apply andb_true_iff in Ha. destruct Ha as [Ha Hb].
+      rewrite <- app_assoc. cbn [app].
+      destruct (exec_slice_sub input q sa sb sc (x :: tail) ps (TAct 19 :: toks) cps bg Ha Hb Hc Hin) as (c1 & b1 & E).
+      rewrite E. rewrite exec19_sub. eexists _, _. unfold sub_node, sub_of. reflexivity.
+    - cbn [app Actions.execute].
+      change (exec_action 18 cps bg (mk ps)) with (AOk (push (ISub SubWild) (mk ps))). cbn [abind].
+      unfold push, with_params, mk. cbn [params saved proot]. fold (mk (ps ++ [ISub SubWild])).
+      pose proof (exec19_sub cps bg ps SubWild toks input) as E. cbn [Actions.execute] in E. rewrite E. eexists _, _. reflexivity.
+  Qed.
+
+  (* merging the subscripts that follow the first one *)
+  Lemma exec15 cps bg ps subs b0 v toks input :
+    execute (TAct 15 :: toks) input cps bg (mk ((ps ++ [INode (Node (KUnion subs) b0 ONone)]) ++ [INode (sub_node v)])) =
+    execute toks input cps bg (mk (ps ++ [INode (Node (KUnion (subs ++ [sub_of v])) (set_vgroup true b0) ONone)])).
+  Proof.
+    cbn [Actions.execute].
+    change (exec_action 15 cps bg ?st) with
+      (abind (pop_node st) (fun '(child, st1) => abind (pop_node st1) (fun '(parent, st2) =>
+         match child, parent with
+         | Node (KUnion csubs) _ _, Node (KUnion psubs) pb pnx => AOk (push (INode (Node (KUnion (psubs ++ csubs)) (set_vgroup true pb) pnx)) st2)
+         | _, _ => ACrash "type assertion .(*syntaxUnionQualifier)"
+         end))).
+    unfold pop_node. rewrite pop_mk. cbn [abind]. rewrite pop_mk. cbn [abind]. unfold sub_node. reflexivity.
+  Qed.
+
+  Lemma exec_rest input us : forall q ps subs b0 toks cps bg rest, forallb usub_ok us = true -> forallb usub_atoi us = true ->
+    skipn q input = rest_text us ++ 93 :: rest ->
+    exists cps' bg' b1, execute (rest_tokens q us ++ toks) input cps bg (mk (ps ++ [INode (Node (KUnion subs) b0 ONone)])) =
+                        execute toks input cps' bg' (mk (ps ++ [INode (Node (KUnion (subs ++ map sub_of us)) b1 ONone)])) /\
+                        b1 = match us with [] => b0 | _ :: _ => set_vgroup true b0 end.
+  Proof.
+    induction us as [|v r IH]; intros q ps subs b0 toks cps bg rest Hok Hat Hin.
+    - exists cps, bg, b0. cbn [rest_tokens app map]. rewrite app_nil_r. split; reflexivity.
+    - cbn [forallb] in Hok, Hat. apply andb_true_iff in Hok. destruct Hok as [Hv Hr]. apply andb_true_iff in Hat. destruct Hat as [Av Ar].
+      cbn [rest_tokens]. rewrite <- !app_assoc. unfold rest_text in Hin. cbn [flat_map] in Hin. cbn [app] in Hin. rewrite <- app_assoc in Hin.
+      assert (Hx : exists x tl, flat_map (fun v0 => 44 :: render_sub v0) r ++ 93 :: rest = x :: tl).
+      { destruct r as [|w r']; cbn [flat_map app]; eexists _, _; reflexivity. }
+      destruct Hx as (x & tl & Etail).
+      assert (Hin1 : skipn (q + 1) input = render_sub v ++ x :: tl).
+      { rewrite skipn_add, Hin. cbn [skipn]. rewrite Etail. reflexivity. }
+      destruct (exec_sub input (q + 1) v x tl (ps ++ [INode (Node (KUnion subs) b0 ONone)]) ([TAct 15] ++ rest_tokens (q + 1 + List.length (render_sub v)) r ++ toks) cps bg Hv Av Hin1) as (c1 & g1 & E1).
+      rewrite E1. cbn [app]. rewrite exec15.
+      assert (Hin2 : skipn (q + 1 + List.length (render_sub v)) input = rest_text r ++ 93 :: rest).
+      { rewrite (skipn_next input (q + 1) (render_sub v) (x :: tl) Hin1). rewrite <- Etail. reflexivity. }
+      destruct (IH (q + 1 + List.length (render_sub v))%nat ps (subs ++ [sub_of v]) (set_vgroup true b0) toks c1 g1 rest Hr Ar Hin2) as (c2 & g2 & b2 & E2 & Hb2).
+      exists c2, g2, (set_vgroup true b0). rewrite E2. cbn [map]. rewrite <- app_assoc. cbn [app]. split; [|reflexivity].
+      rewrite Hb2. destruct r; reflexivity.
+  Qed.
+
   Lemma exec_step input p s ps toks cps b rest : step_ok s = true -> skipn p input = render_step s ++ rest ->
     execute (step_tokens p s ++ toks) input cps b (mk ps) = execute toks input (render_step s) p (mk (ps ++ [INode (pre_node s)])).
   Proof.
-    intros Hs Hin. destruct s as [q k|k|ds|[|]|sa sb sc].
+    intros Hs Hin. destruct s as [q k|k|ds|[|]|sa sb sc|u us].
     - cbn [step_ok] in Hs. apply q_ok in Hs. cbn [step_tokens app Actions.execute].
       assert (E1 : sub_list input (p + 2) (p + 2 + List.length (esc_cps q k)) = esc_cps q k).
       { apply (sub_at input p 2 [91; q] (esc_cps q k) ([q; 93] ++ rest)); [|reflexivity]. rewrite Hin. cbn [render_step app]. rewrite <- app_assoc. reflexivity. }
@@ -352,12 +513,44 @@ Section ChainExec.
       rewrite Evg.
       fold (mk (ps ++ [INode (Node (KUnion [mk_slice (bound_idx sa) (bound_idx sb) stepi]) (mk_basic "" true (acc cfg)) ONone)])).
       rewrite set_last_text_mk by discriminate. cbn [abind]. reflexivity.
+    - pose proof (union_ok_of u us Hs) as Hok. cbn [step_ok] in Hs. apply andb_true_iff in Hs. destruct Hs as [_ Hat].
+      cbn [forallb] in Hat. apply andb_true_iff in Hat. destruct Hat as [Au Aus].
+      unfold union_ok in Hok. apply andb_true_iff in Hok. destruct Hok as [Hok Hus]. apply andb_true_iff in Hok. destruct Hok as [Hu _].
+      cbn [step_tokens]. unfold union_step_tokens, union_tokens. rewrite <- !app_assoc.
+      cbn [render_step] in Hin. unfold render_union in Hin. repeat (progress (cbn [app] in Hin) || rewrite <- app_assoc in Hin).
+      fold (rest_text us) in Hin.
+      assert (Hx : exists x tl, rest_text us ++ 93 :: rest = x :: tl).
+      { unfold rest_text. destruct us as [|w r']; cbn [flat_map app]; eexists _, _; reflexivity. }
+      destruct Hx as (x & tl & Etail).
+      assert (Hin1 : skipn (p + 1) input = render_sub u ++ x :: tl).
+      { rewrite skipn_add, Hin. cbn [skipn]. rewrite Etail. reflexivity. }
+      destruct (exec_sub input (p + 1) u x tl ps (rest_tokens (p + 1 + List.length (render_sub u)) us ++ [TText p (p + List.length (render_sub u ++ flat_map (fun v => 44 :: render_sub v) us) + 2); TAct 7] ++ toks) cps b Hu Au Hin1) as (c1 & g1 & E1).
+      unfold render_union. rewrite E1. clear E1.
+      assert (Hin2 : skipn (p + 1 + List.length (render_sub u)) input = rest_text us ++ 93 :: rest).
+      { rewrite (skipn_next input (p + 1) (render_sub u) (x :: tl) Hin1). rewrite <- Etail. reflexivity. }
+      unfold sub_node.
+      destruct (exec_rest input us (p + 1 + List.length (render_sub u))%nat ps [sub_of u] (mk_basic "" (sub_value_group (sub_of u)) (cfg_accessor cfg))
+                          ([TText p (p + List.length (render_sub u ++ flat_map (fun v => 44 :: render_sub v) us) + 2); TAct 7] ++ toks) c1 g1 rest Hus Aus Hin2) as (c2 & g2 & b2 & E2 & Hb2).
+      rewrite E2. clear E2. cbn [app Actions.execute].
+      assert (E3 : sub_list input p (p + List.length (render_sub u ++ flat_map (fun v => 44 :: render_sub v) us) + 2) = render_step (SUnion u us)).
+      { pose proof (sub_at input p 0 [] (render_step (SUnion u us)) rest) as H. rewrite Nat.add_0_r in H.
+        rewrite render_len_union in H. unfold render_union in H.
+        set (LL := List.length (render_sub u ++ flat_map (fun v => 44 :: render_sub v) us)) in *.
+        replace (p + LL + 2)%nat with (p + (LL + 2))%nat by lia.
+        apply H; [|reflexivity]. rewrite Hin. cbn [render_step]. unfold render_union, rest_text. repeat (progress (cbn [app]) || rewrite <- app_assoc). reflexivity. }
+      rewrite E3.
+      change (exec_action 7 (render_step (SUnion u us)) p ?st) with (set_last_node_text (text_of (render_step (SUnion u us))) st).
+      rewrite set_last_text_mk by discriminate. cbn [abind].
+      unfold pre_node, step_kind. cbn [map app]. subst b2.
+      assert (Eb : set_text (text_of (render_step (SUnion u us))) (match us with [] => mk_basic "" (sub_value_group (sub_of u)) (cfg_accessor cfg) | _ :: _ => set_vgroup true (mk_basic "" (sub_value_group (sub_of u)) (cfg_accessor cfg)) end) = pre_basic (SUnion u us)).
+      { unfold pre_basic, pre_basic_vg, step_vg, step_text. destruct us; reflexivity. }
+      rewrite Eb. reflexivity.
   Qed.
 
   (* ---------- nodes a step stands for ---------- *)
 
   Definition rec_flags (s : kstep) : bool * bool :=
-    match s with SWild _ => (true, true) | SIdx _ | SSlice _ _ _ => (false, true) | _ => (true, false) end.
+    match s with SWild _ => (true, true) | SIdx _ | SSlice _ _ _ | SUnion _ _ => (false, true) | _ => (true, false) end.
   Definition rec_inner_basic (s : kstep) : basic :=
     match s with
     | SDot k => mk_basic (step_key s) false (cfg_accessor cfg)
@@ -379,7 +572,7 @@ Section ChainExec.
   Proof. destruct x as [s|s]; cbn [rstep_pre]; repeat constructor; cbn [fst]; try apply step_kind_plain; intros; discriminate. Qed.
 
   Lemma push_recursive_step s ps : push_recursive cfg (Node (step_kind s) (rec_inner_basic s) ONone) (mk ps) = mk (ps ++ [INode (rpre_node (RRec s))]).
-  Proof. destruct s as [q k|k|ds|[|]|a b c0]; reflexivity. Qed.
+  Proof. destruct s as [q k|k|ds|[|]|a b c0|u us]; reflexivity. Qed.
 
   Lemma exec_act3 cps b ps nd toks input :
     execute (TAct 3 :: toks) input cps b (mk (ps ++ [INode nd])) = execute toks input cps b (push_recursive cfg nd (mk ps)).
@@ -396,7 +589,7 @@ Section ChainExec.
     - eexists _, _. cbn [rstep_tokens render_rstep] in *. rewrite (exec_step input p s ps toks cps b rest Hs Hin). reflexivity.
     - cbn [rstep_ok] in Hs. cbn [render_rstep] in Hin.
       assert (Hin2 : skipn (p + 2) input = rec_body s ++ rest) by (rewrite skipn_add, Hin; reflexivity).
-      destruct s as [q k|k|ds|[|]|sa sb sc].
+      destruct s as [q k|k|ds|[|]|sa sb sc|u us].
       + cbn [rstep_tokens]. rewrite <- app_assoc. cbn [rec_body] in Hin2.
         rewrite (exec_step input (p + 2) (SBr q k) ps _ cps b rest Hs Hin2). cbn [app]. rewrite exec_act3.
         eexists _, _. unfold pre_node. change (pre_basic (SBr q k)) with (rec_inner_basic (SBr q k)). rewrite push_recursive_step. reflexivity.
@@ -430,6 +623,9 @@ Section ChainExec.
       + cbn [rstep_tokens]. rewrite <- app_assoc. cbn [rec_body] in Hin2.
         rewrite (exec_step input (p + 2) (SSlice sa sb sc) ps _ cps b rest Hs Hin2). cbn [app]. rewrite exec_act3.
         eexists _, _. unfold pre_node. change (pre_basic (SSlice sa sb sc)) with (rec_inner_basic (SSlice sa sb sc)). rewrite push_recursive_step. reflexivity.
+      + cbn [rstep_tokens]. rewrite <- app_assoc. cbn [rec_body] in Hin2.
+        rewrite (exec_step input (p + 2) (SUnion u us) ps _ cps b rest Hs Hin2). cbn [app]. rewrite exec_act3.
+        eexists _, _. unfold pre_node. change (pre_basic (SUnion u us)) with (rec_inner_basic (SUnion u us)). rewrite push_recursive_step. reflexivity.
   Qed.
 
   Lemma exec_steps input steps : forall p ps toks cps b, forallb rstep_ok steps = true -> skipn p input = render_steps steps ->
@@ -462,7 +658,7 @@ Section ChainExec.
   Qed.
 
   Lemma rpre_not_agg root x : chain_step (AOk root) (INode (rpre_node x)) = AOk (append_deep root (rpre_node x)).
-  Proof. destruct x as [s|s]; destruct s as [q k|k|ds|[|]|a b c0]; reflexivity. Qed.
+  Proof. destruct x as [s|s]; destruct s as [q k|k|ds|[|]|a b c0|u us]; reflexivity. Qed.
 
   Lemma chain_fold rb steps : forall done,
     fold_left chain_step (map (fun s => INode (rpre_node s)) steps) (AOk (Node KRoot rb (link (pres done)))) =
